@@ -11,7 +11,7 @@ CONSTANTS
   AllowSat = FALSE
   BumpDen = 2
   InitClkEpochs = {0, 1}
-  MaxLen = 6
+  MaxLen = 5
   RawMags <- RawMagsFull
   StepUsesDoubleInv = TRUE
   DurationWraps = TRUE
